@@ -5,6 +5,7 @@ package stream
 // Contracts checked by /verif (govc). Comment-only: no executable code.
 
 //@ func (*stream).setOffset
+//@ params s vbID offset dirty
 //@ props C01 C04 C05 C14
 //@ requires s != nil && s.vbIDRange != nil && s.offsets != nil && s.dirtyOffsets != nil && s.consumer != nil && offset != nil
 //@ let inr = old(s.vbIDRange.Start <= vbID && vbID <= s.vbIDRange.End)
@@ -25,6 +26,7 @@ package stream
 //@ modifies content(s.offsets), content(s.dirtyOffsets), s.anyDirtyOffset, calls(models.Consumer.TrackOffset)
 
 //@ func (*vBucketDiscovery).Get
+//@ params s
 //@ props C09 C16
 //@ requires s != nil && s.membership != nil && s.vBucketDiscoveryMetric != nil && 0 <= s.vBucketNumber && s.vBucketNumber <= 65536
 //@ let info = ret(membership.Membership.GetInfo, 0)
@@ -49,6 +51,7 @@ package stream
 // ---------- delivery path (C01, C03, C05, C14) ----------
 
 //@ func (*stream).waitAndForward$1
+//@ freevars s vbID offset
 //@ props C01 C05
 //@ requires s != nil && s.vbIDRange != nil && s.offsets != nil && s.dirtyOffsets != nil && s.consumer != nil && offset != nil
 //@ ensures.settle[C01,C05] calls("stream.(*stream).setOffset") == 1 && arg("stream.(*stream).setOffset", 0, s) == s && arg("stream.(*stream).setOffset", 0, vbID) == vbID && arg("stream.(*stream).setOffset", 0, offset) == offset && arg("stream.(*stream).setOffset", 0, dirty) == true
@@ -56,6 +59,7 @@ package stream
 //@ modifies content(s.offsets), content(s.dirtyOffsets), s.anyDirtyOffset, calls(models.Consumer.TrackOffset), calls("stream.(*stream).setOffset")
 
 //@ func (*stream).waitAndForward
+//@ params s payload spanCtx offset vbID eventTime
 //@ props C01 C03 C05 C14
 //@ requires s != nil && s.vbIDRange != nil && s.offsets != nil && s.dirtyOffsets != nil && s.consumer != nil && s.metric != nil && s.checkpoint != nil && offset != nil
 //@ let meta = isMeta(payload)
@@ -69,6 +73,7 @@ package stream
 //@ modifies content(s.offsets), content(s.dirtyOffsets), s.anyDirtyOffset, s.metric.DcpLatency, s.metric.ProcessLatency, calls(models.Consumer.TrackOffset), calls(models.Consumer.ConsumeEvent), calls("stream.(*stream).setOffset")
 
 //@ func (*stream).dispatchPersistSeqNo
+//@ params s persistSeqNo
 //@ props C07
 //@ requires s != nil && persistSeqNo != nil
 //@ ensures.forward[C07] old(s.observers != nil && has(s.observers, persistSeqNo.VbID)) ==> calls(couchbase.Observer.SetPersistSeqNo) == 1 && arg(couchbase.Observer.SetPersistSeqNo, 0, recv) == old(s.observers[persistSeqNo.VbID]) && arg(couchbase.Observer.SetPersistSeqNo, 0, 1) == persistSeqNo.SeqNo
@@ -76,18 +81,21 @@ package stream
 //@ modifies calls(couchbase.Observer.SetPersistSeqNo)
 
 //@ func (*stream).UnmarkDirtyOffsets
+//@ params s
 //@ props C05
 //@ requires s != nil
 //@ ensures.cleared[C05] s.anyDirtyOffset == false && fresh(s.dirtyOffsets) && forall k uint16 :: !has(s.dirtyOffsets, k)
 //@ modifies s.anyDirtyOffset, s.dirtyOffsets
 
 //@ func (*stream).GetOffsets
+//@ params s
 //@ props C01 C05 C16
 //@ requires s != nil
 //@ ensures.fields result0 == s.offsets && result1 == s.dirtyOffsets && result2 == s.anyDirtyOffset
 //@ modifies nothing
 
 //@ func (*stream).listen
+//@ params s args
 //@ props C01 C03 C05
 //@ requires s != nil && s.vbIDRange != nil && s.offsets != nil && s.dirtyOffsets != nil && s.consumer != nil && s.metric != nil && s.checkpoint != nil
 //@ let ev = args.Event
@@ -134,6 +142,7 @@ package stream
 //@ modifies nothing
 
 //@ func (*checkpoint).Save
+//@ params s
 //@ props C01 C02 C05 C06 C13
 //@ requires s != nil && s.stream != nil && typeis(s.stream, "*stream") && s.saveLock != nil && s.metric != nil && s.metadata != nil
 //@ requires as(s.stream, "*stream").offsets != nil && as(s.stream, "*stream").dirtyOffsets != nil
@@ -199,6 +208,7 @@ package stream
 //@ modifies nothing
 
 //@ func (*checkpoint).Load
+//@ params s
 //@ props C02 C06 C15
 //@ requires s != nil && s.loadLock != nil && s.metadata != nil && s.client != nil && s.config != nil && s.offsetLatestSeqNoInit != nil && s.offsetLatestSeqNoInit.config != nil
 //@ let dump = ret(metadata.Metadata.Load, 0, 0)
@@ -246,6 +256,7 @@ package stream
 //@ modifies nothing
 
 //@ func (*stream).openStream
+//@ params s vbID
 //@ props C12 C15 C02
 //@ requires s != nil && s.offsets != nil && s.observers != nil && s.client != nil
 //@ ensures.missing[C15] !old(has(s.offsets, vbID)) ==> result != nil && calls(couchbase.Client.OpenStream) == 0
@@ -253,6 +264,7 @@ package stream
 //@ modifies calls(couchbase.Client.OpenStream)
 
 //@ func (*stream).reopenStream
+//@ params s vbID
 //@ props C11 C12 C15 C16
 //@ requires s != nil && s.offsets != nil && s.client != nil
 //@ let K = "stream.(*stream).openStream"
@@ -267,6 +279,7 @@ package stream
 //@ modifies calls("stream.(*stream).openStream"), calls(couchbase.Client.OpenStream)
 
 //@ func (*stream).listenEnd
+//@ params s endContext
 //@ props C12 C11 C01 C05 C16
 //@ requires s != nil && s.finishStreamWithEndEventCh != nil && atomicval(s.activeStreams) > -2147483648 && atomicval(s.activeStreams) <= 2147483647
 //@ requires s.streamEndNotSupportedData != nil ==> s.streamEndNotSupportedData.queue != s.finishStreamWithEndEventCh
@@ -279,6 +292,7 @@ package stream
 //@ modifies atomic(s.activeStreams), chan(s.finishStreamWithEndEventCh), chan(old(s.streamEndNotSupportedData).queue), calls("go:stream.(*stream).reopenStream")
 
 //@ func (*stream).wait
+//@ params s
 //@ props C11 C12
 //@ requires s != nil && s.finishStreamWithCloseCh != nil && s.finishStreamWithEndEventCh != nil && s.stopCh != nil && !chclosed(s.finishStreamWithCloseCh) && !chclosed(s.finishStreamWithEndEventCh) && s.finishStreamWithCloseCh != s.finishStreamWithEndEventCh && s.stopCh != s.finishStreamWithCloseCh && s.stopCh != s.finishStreamWithEndEventCh
 //@ ensures.rebalance_never_stops[C11] s.balancing ==> chclosed(s.stopCh) == old(chclosed(s.stopCh))
@@ -287,6 +301,8 @@ package stream
 //@ modifies chan(s.finishStreamWithCloseCh), chan(s.finishStreamWithEndEventCh), chan(s.stopCh), s.streamFinishedWithCloseCh, s.streamFinishedWithEndEventCh, calls(select.case), calls(builtin.close)
 
 //@ func (*stream).openAllStreams$1
+//@ freevars s openWg
+//@ params innerVbId
 //@ props C15
 //@ requires s != nil && s.offsets != nil && s.observers != nil && s.client != nil && openWg != nil
 //@ ensures.ok[C15] dcalls("stream.(*stream).openStream") == 1 && dret("stream.(*stream).openStream", 0, 0) == nil && darg("stream.(*stream).openStream", 0, vbID) == innerVbId
@@ -294,6 +310,7 @@ package stream
 //@ modifies calls("stream.(*stream).openStream"), calls(couchbase.Client.OpenStream)
 
 //@ func (*stream).openAllStreams
+//@ params s vbIDs
 //@ props C15 C12
 //@ requires s != nil
 //@ loop 1
@@ -312,24 +329,28 @@ package stream
 //@ modifies nothing
 
 //@ func (*stream).closeAllStreams
+//@ params s
 //@ props C13
 //@ trusted
 //@ requires s != nil && s.offsets != nil && s.client != nil
 //@ modifies calls(couchbase.Client.CloseStream), calls("go:stream.(*stream).closeAllStreams$1$1")
 
 //@ func (*stream).Close$1
+//@ params _ observer
 //@ props C13
 //@ requires observer != nil
 //@ ensures.switch[C13] result == true && calls(couchbase.Observer.Close) == 1 && arg(couchbase.Observer.Close, 0, recv) == observer
 //@ modifies calls(couchbase.Observer.Close)
 
 //@ func (*stream).Close$2
+//@ params _ observer
 //@ props C13
 //@ requires observer != nil
 //@ ensures.switch[C13] result == true && calls(couchbase.Observer.CloseEnd) == 1 && arg(couchbase.Observer.CloseEnd, 0, recv) == observer
 //@ modifies calls(couchbase.Observer.CloseEnd)
 
 //@ func (*stream).Close
+//@ params s closeWithCancel
 //@ props C11 C12 C13
 //@ nopanic
 //@ requires s != nil && s.eventHandler != nil && s.config != nil && s.finishStreamWithCloseCh != nil && !chclosed(s.finishStreamWithCloseCh) && logger.Log != nil
@@ -350,6 +371,7 @@ package stream
 //@ modifies s.closeWithCancel, s.observers, s.offsets, s.dirtyOffsets, s.open, chan(s.finishStreamWithCloseCh), calls(models.EventHandler.BeforeStreamStop), calls(models.EventHandler.AfterStreamStop), calls("stream.(*stream).closeAllStreams"), calls(couchbase.Client.CloseStream), calls("go:stream.(*stream).closeAllStreams$1$1"), calls(couchbase.Observer.Close), calls(couchbase.Observer.CloseEnd), calls(couchbase.RollbackMitigation.Stop), calls(stream.Checkpoint.StopSchedule), calls("time.(*Timer).Stop"), calls("wrapper.(*ConcurrentSwissMap).Range")
 
 //@ func (*stream).Rebalance
+//@ params s
 //@ props C11 C13
 //@ requires s != nil && s.eventHandler != nil && s.config != nil && s.finishStreamWithCloseCh != nil && !chclosed(s.finishStreamWithCloseCh) && logger.Log != nil
 //@ requires s.open ==> s.observers != nil && s.offsets != nil && s.client != nil && (s.config.RollbackMitigation.Disabled || s.rollbackMitigation != nil) && (forall vb uint16 :: has(s.observers, vb) ==> s.observers[vb] != nil)
@@ -373,6 +395,8 @@ package stream
 //@ modifies nothing
 
 //@ func (*stream).Open$1
+//@ freevars s
+//@ params vbID offset
 //@ props C03
 //@ requires s != nil && s.observers != nil && offset != nil
 //@ ensures.observer[C03,C12] result == true && has(s.observers, vbID) && s.observers[vbID] != nil && typeis(s.observers[vbID], "*couchbase.observer") && fresh(as(s.observers[vbID], "*couchbase.observer")) && as(s.observers[vbID], "*couchbase.observer").vbID == vbID && as(s.observers[vbID], "*couchbase.observer").latestSeqNo == offset.LatestSeqNo && as(s.observers[vbID], "*couchbase.observer").config == s.config && as(s.observers[vbID], "*couchbase.observer").collectionIDs == s.collectionIDs
@@ -381,6 +405,7 @@ package stream
 //@ modifies content(s.observers)
 
 //@ func (*stream).Open
+//@ params s
 //@ props C02 C04 C09 C11 C12
 //@ requires s != nil && s.eventHandler != nil && s.vBucketDiscovery != nil && s.config != nil && s.bucketInfo != nil && s.client != nil && s.metadata != nil && s.finishStreamWithCloseCh != nil && s.finishStreamWithEndEventCh != nil && s.finishStreamWithCloseCh != s.finishStreamWithEndEventCh && logger.Log != nil
 //@ let ids = ret(stream.VBucketDiscovery.Get, 0, 0)
@@ -398,6 +423,7 @@ package stream
 //@ modifies s.streamFinishedWithCloseCh, s.streamFinishedWithEndEventCh, s.vbIDRange, s.rollbackMitigation, s.config.RollbackMitigation.Disabled, atomic(s.activeStreams), s.checkpoint, s.offsets, s.dirtyOffsets, s.anyDirtyOffset, s.observers, s.open, chan(s.finishStreamWithCloseCh), chan(s.finishStreamWithEndEventCh), calls(select.case), calls(models.EventHandler.BeforeStreamStart), calls(models.EventHandler.AfterStreamStart), calls(stream.VBucketDiscovery.Get), calls(stream.Checkpoint.Load), calls("stream.(*stream).openAllStreams"), calls("go:stream.(*stream).openAllStreams$1"), calls("go:stream.(*stream).wait"), calls(stream.Checkpoint.StartSchedule), calls(couchbase.RollbackMitigation.Start), calls("wrapper.(*ConcurrentSwissMap).Range")
 
 //@ func (*stream).rebalance
+//@ params s
 //@ props C11 C16
 //@ requires s != nil && s.eventHandler != nil && s.vBucketDiscovery != nil && s.config != nil && s.bucketInfo != nil && s.client != nil && s.metadata != nil && s.metric != nil && s.finishStreamWithCloseCh != nil && s.finishStreamWithEndEventCh != nil && s.finishStreamWithCloseCh != s.finishStreamWithEndEventCh && logger.Log != nil
 //@ ensures.reopen_once[C11] dcalls("stream.(*stream).Open") == 1 && calls(models.EventHandler.BeforeRebalanceEnd) == 1 && calls(models.EventHandler.AfterRebalanceEnd) == 1 && ts(models.EventHandler.BeforeRebalanceEnd, 0) < ts("stream.(*stream).Open", 0) && ts("stream.(*stream).Open", 0) < ts(models.EventHandler.AfterRebalanceEnd, 0)
@@ -408,6 +434,7 @@ package stream
 // ---------- version gate: serial stream closing below 5.5.0 (C18) ----------
 
 //@ func NewStream
+//@ params client metadata config version bucketInfo vBucketDiscovery consumer collectionIDs stopCh eventHandler tc
 //@ props C18
 //@ requires version != nil
 //@ let below = lexGreater(5, 5, 0, 0, version.Major, version.Minor, version.Patch, version.Build)
@@ -418,6 +445,7 @@ package stream
 // ---------- membership type switch (C15, C10) ----------
 
 //@ func NewVBucketDiscovery
+//@ params client config vBucketNumber bus
 //@ props C15 C10
 //@ requires config != nil && logger.Log != nil && bus != nil
 //@ requires config.Dcp.Group.Membership.Type == "couchbase" ==> client != nil
